@@ -28,6 +28,11 @@ thread_local! {
     static PROP_OVERRIDE: std::cell::Cell<Option<&'static str>> = const { std::cell::Cell::new(None) };
 }
 
+thread_local! {
+    /// `vec=1` in the case header: the scripted transport of the case reports `is_write_vectored()`
+    static VECTORED: std::cell::Cell<bool> = const { std::cell::Cell::new(false) };
+}
+
 fn t3x(rep: &mut Report, prop: &str, msg: &str) {
     let p = PROP_OVERRIDE.with(|o| o.get()).unwrap_or(prop);
     rep.t3(p, msg);
@@ -649,7 +654,7 @@ fn gen_c15(a: &Args, w: &mut dyn Write) {
                 for items in [&["61", "62"][..], &["-", "6162", "c3a9"], &["61", "-", "-"], &["n:5000", "n:4000", "62"]] {
                     for at in 1..items.len() {
                         g += 1;
-                        writeln!(w, "case lines-glue-w-{g} codec=lines prop=C15{}", if g % 3 == 0 { " init=parts" } else { "" }).unwrap();
+                        writeln!(w, "case lines-glue-w-{g} codec=lines prop=C15{}{}", if g % 3 == 0 { " init=parts" } else { "" }, if g % 2 == 0 { " vec=1" } else { "" }).unwrap();
                         if !ws.is_empty() {
                             writeln!(w, "{ws}").unwrap();
                         }
@@ -834,6 +839,9 @@ struct IoState {
     shut: bool,
     zero_answers: usize,
     empty_writes: usize,
+    /// `is_write_vectored()` answers true (`vec=1` in the case header)
+    vectored: bool,
+    n_vectored: usize,
     /// `Pending` answers of the write half (each one registered a wake-up)
     wpending_answers: usize,
     /// error answers of the write half, in order
@@ -996,6 +1004,16 @@ impl AsyncWrite for ScriptedIo {
                 Poll::Ready(Err(io::Error::new(k, IO_MSG)))
             }
         }
+    }
+    /// `vec=1`: the transport says it writes vectored; a vectored write takes the scripted number of
+    /// bytes across the slices (same script, same record as `poll_write`)
+    fn is_write_vectored(&self) -> bool {
+        self.0.borrow().vectored
+    }
+    fn poll_write_vectored(self: Pin<&mut Self>, cx: &mut Context<'_>, bufs: &[io::IoSlice<'_>]) -> Poll<io::Result<usize>> {
+        let all: Vec<u8> = bufs.iter().flat_map(|b| b.iter().copied()).collect();
+        self.0.borrow_mut().n_vectored += 1;
+        self.poll_write(cx, &all)
     }
     fn poll_flush(self: Pin<&mut Self>, cx: &mut Context<'_>) -> Poll<io::Result<()>> {
         let mut st = self.0.borrow_mut();
@@ -1312,6 +1330,7 @@ enum Init {
 impl Session {
     fn new(sel: Sel, init: Init, rd_style: u8) -> Self {
         let io = ScriptedIo(Default::default());
+        io.0.borrow_mut().vectored = VECTORED.with(|v| v.get());
         io.0.borrow_mut().sels_since_arrival = vec![sel];
         io.0.borrow_mut().rd_style = rd_style;
         let codec = AnyCodec::new(sel);
@@ -2097,7 +2116,7 @@ fn gen_c13(a: &Args, w: &mut dyn Write) {
                             };
                             let prog = PROGRAMS[k % PROGRAMS.len()];
                             id += 1;
-                            writeln!(w, "case c13-{}-halves-{id} codec={}{}", sel.name(), sel.name(), rd_style(id)).unwrap();
+                            writeln!(w, "case c13-{}-halves-{id} codec={}{}{}", sel.name(), sel.name(), rd_style(id), if id % 2 == 0 { " vec=1" } else { "" }).unwrap();
                             writeln!(w, "script {}", script.iter().map(show_rd).collect::<Vec<_>>().join(" ")).unwrap();
                             if before > 0 {
                                 writeln!(w, "drain {before}").unwrap();
@@ -2721,7 +2740,8 @@ fn random_wconfig(rng: &mut Rng) -> WConfig {
 /// ops: 0 send, 1 ready, 2 flush, 3 close, 4 codec swap, 5 into_map_io, 6 poll the stream half
 fn emit_c14(w: &mut dyn Write, id: &mut usize, tag: &str, cfg: &WConfig, ops: &[u8]) {
     *id += 1;
-    writeln!(w, "case c14-{tag}-{} codec={}{}{}", *id, cfg.sel.name(), if cfg.parts { " init=parts" } else { "" }, if cfg.rscript.is_empty() { "" } else { rd_style(*id) }).unwrap();
+    // every third case on a transport that reports vectored writes
+    writeln!(w, "case c14-{tag}-{} codec={}{}{}{}", *id, cfg.sel.name(), if cfg.parts { " init=parts" } else { "" }, if cfg.rscript.is_empty() { "" } else { rd_style(*id) }, if *id % 3 == 1 { " vec=1" } else { "" }).unwrap();
     if !cfg.wscript.is_empty() {
         writeln!(w, "wscript {}", cfg.wscript.iter().map(show_wr).collect::<Vec<_>>().join(" ")).unwrap();
     }
@@ -2880,7 +2900,7 @@ fn gen_c14(a: &Args, w: &mut dyn Write) {
                     k += 1;
                     id += 1;
                     let sel = if k % 3 == 0 { Sel::Lines } else { Sel::Bytes };
-                    writeln!(w, "case c14-big-{id} codec={}{}", sel.name(), if k % 4 == 1 { " init=parts" } else { "" }).unwrap();
+                    writeln!(w, "case c14-big-{id} codec={}{}{}", sel.name(), if k % 4 == 1 { " init=parts" } else { "" }, if k % 2 == 0 { " vec=1" } else { "" }).unwrap();
                     if !ws.is_empty() {
                         writeln!(w, "wscript {}", ws.iter().map(show_wr).collect::<Vec<_>>().join(" ")).unwrap();
                     }
@@ -3014,6 +3034,7 @@ fn run(a: &Args) {
                         _ => None,
                     }))
                 });
+                VECTORED.with(|v| v.set(ws.iter().skip(2).any(|w| *w == "vec=1")));
                 parse_case(&ws)
             } {
                 Some((sel, init, rd)) => {
